@@ -42,10 +42,10 @@ ASSUMPTIONS = [
 REQUIRED_CLASSES = {
     "all": ["inject=none", "inject=offdiag_h0", "inject=shared_energy", "inject=mask_degenerate", "inject=nonorthonormal",
             "inject=asymmetric_mask", "inject=nonhermitian_sympy", "inject=exclusive_options", "inject=zero_diagonal", "inject=nonconserving_h0", "inject=nonhermitian_sympy_operators",
-            "mode=nonhermitian", "lower-triangle-only"]
+            "mode=nonhermitian", "lower-triangle-only", "mask-dict-with-several-blocks"]
 }
 ALLOWED = (ValueError, TypeError, NotImplementedError)
-KINDS = ["none", "offdiag_h0", "offdiag_h0", "shared_energy", "shared_energy", "mask_degenerate", "nonorthonormal",
+KINDS = ["none", "offdiag_h0", "offdiag_h0", "shared_energy", "shared_energy", "mask_degenerate", "mask_degenerate", "nonorthonormal",
          "asymmetric_mask", "nonhermitian_sympy", "exclusive_options", "zero_diagonal", "nonconserving_h0", "nonhermitian_sympy_operators"]
 
 
@@ -224,7 +224,14 @@ def check_case(case, enforce_all=False):
         s = len(states[b])
         mask = [[0] * s for _ in range(s)]
         mask[x][y] = mask[y][x] = 1
-        p["selection"] = {"kind": "mask", "full": [], "masks": {str(b): mask}}
+        masks = {str(b): mask}
+        if nb >= 2 and par["size"] != 1:
+            # the dictionary also names other blocks, with masks that eliminate nothing (always legal); the ill-posed
+            # entry comes first (size == 2) or last (size == -3) in the dictionary
+            others = {str(c): [[0] * len(states[c]) for _ in states[c]] for c in range(nb) if c != b}
+            masks = {**masks, **others} if par["size"] == 2 else {**others, **masks}
+            out.labels.append("mask-dict-with-several-blocks")
+        p["selection"] = {"kind": "mask", "full": [], "masks": masks}
         loc_nontrivial = True
     elif kind == "asymmetric_mask":
         if not p["hermitian"]:
